@@ -887,6 +887,12 @@ func (f *Flow) refine(env Env, cond *Term, truth bool) (Env, bool) {
 				return out, true
 			}
 		}
+		// a predicate with constant extra operands (`set.has(kind)`): flow_enum.go
+		if call, ok := cond.V.(*ssa.Call); ok {
+			if o, feasible, applied := f.refinePredCtx(env, call.Common(), truth); applied {
+				return o, feasible
+			}
+		}
 		// an opaque boolean: remember its outcome under its own key
 		out := env.clone()
 		if truth {
@@ -921,6 +927,12 @@ func (f *Flow) refine(env Env, cond *Term, truth bool) (Env, bool) {
 		case token.EQL, token.NEQ, token.LSS, token.LEQ, token.GTR, token.GEQ:
 		default:
 			return env, true
+		}
+		// a bit set tested by a variable shift (`set>>k&1 != 0`): flow_enum.go
+		if hasVarShift(cond, 0) {
+			if o, feasible, applied := f.refineEnum(env, cond, truth); applied {
+				return o, feasible
+			}
 		}
 		if !truth {
 			op = negOp(op)
